@@ -608,11 +608,6 @@ func (root *Root) resolveField(
 
 	if field.ConType == nil {
 		field.ConType = t
-		ea = append(ea, field.sortArgs()...)
-		if 0 < len(ea) {
-			Errors(ea).in(field.key())
-			return
-		}
 	}
 	// The meta fields are served on the schema's query root whatever that
 	// type is named.
@@ -681,6 +676,13 @@ func (root *Root) resolveField(
 	fd := root.getFieldDef(t, field.Name)
 	if fd == nil {
 		ea = append(ea, resWarnp(field, "%s is not a field in %s", field.Name, t.Name()))
+		return
+	}
+	// Checked against the definition of the field in the type of this object
+	// each time, members of a union or implementations of an interface
+	// differ.
+	if ea = field.checkArgs(fd); 0 < len(ea) {
+		Errors(ea).in(field.key())
 		return
 	}
 	switch {
@@ -873,18 +875,19 @@ func (root *Root) formReflectArgs(
 	args = append(args, ov)
 	// Build the args by combining provided args and variable values as
 	// appropriate, coerced to the declared argument types as they are for
-	// the other resolver strategies.
-	for _, av := range field.Args {
+	// the other resolver strategies. The method takes them in the order of
+	// the definition.
+	if len(field.Args) == 0 {
+		return
+	}
+	for _, a := range fd.args.list {
+		av := field.getArg(a.N)
 		if av == nil {
 			// A declared argument that was not given.
 			args = append(args, reflect.Value{})
 			continue
 		}
-		var at Type
-		if a := fd.getArg(av.Arg); a != nil {
-			at = a.Type
-		}
-		val, ea2 := root.replaceArgVars(vars, av.Value, at)
+		val, ea2 := root.replaceArgVars(vars, av.Value, a.Type)
 		Errors(ea2).in(av.Arg)
 		ea = append(ea, ea2...)
 		args = append(args, reflect.ValueOf(val))
